@@ -500,6 +500,15 @@ def check_value(ctx, rng, spec, value, thorough_gaps):
         announced = m.encoded_length(markers)
         wire = bytes(m.encode(markers=markers))
         fresh = bytes(m.encode())
+        # documented form: encode into a caller-supplied buffer at an offset (the buffer is not zero-filled)
+        pre, post = rng.choice([0, 1, 3, 7]), rng.choice([0, 2])
+        fill = rng.choice([0xff, 0xa5, 0x01, 0x80])
+        buf = bytearray([fill]) * (pre + len(wire) + post)
+        m.encode(buf, pre, {})
+        if bytes(buf[pre:pre + len(wire)]) != wire or any(b != fill for b in bytes(buf[:pre]) + bytes(buf[pre + len(wire):])):
+            ctx.report('encode-into-buffer-differs', 'encode(wire, offset) into a pre-filled buffer wrote other bytes than encode() or wrote outside its range',
+                       dict(w, got=bytes(buf)[:300], expected=wire[:300], offset=pre, fill=fill))
+        ctx.event('encoded-into-caller-buffer')
     except Exception as e:   # noqa
         mech = f'encode-raises:{type(e).__name__}@{raising_site(e)[0]}'
         if isinstance(e, (ValueError, IndexError)) and has_nonascii(value):
